@@ -681,7 +681,14 @@ impl Open for VirtualSystem {
         self.with_open_file_description(fd, |ofd| {
             let inode = ofd.inode();
             let dir = VirtualDir::try_from(&inode.borrow().body)?;
-            Ok(dir)
+            // The directory stream owns the file descriptor and closes it
+            // when dropped, like `closedir` does.
+            let guard = FdCloser {
+                state: Rc::clone(&self.state),
+                process_id: self.process_id,
+                fd,
+            };
+            Ok(dir.with_backing_fd(Rc::new(guard)))
         })
     }
 
@@ -708,6 +715,24 @@ impl Open for VirtualSystem {
         )));
         let fd = self.create_fd(open_file_description, OpenFlag::Directory.into())?;
         self.fdopendir(fd)
+    }
+}
+
+/// Closes a file descriptor of a virtual process when dropped.
+#[derive(Debug)]
+struct FdCloser {
+    state: Rc<RefCell<SystemState>>,
+    process_id: Pid,
+    fd: Fd,
+}
+
+impl Drop for FdCloser {
+    fn drop(&mut self) {
+        if let Ok(mut state) = self.state.try_borrow_mut()
+            && let Some(process) = state.processes.get_mut(&self.process_id)
+        {
+            process.close_fd(self.fd);
+        }
     }
 }
 
@@ -1639,6 +1664,16 @@ mod tests {
     use std::sync::Arc;
     use std::task::Context;
     use std::task::Poll::{Pending, Ready};
+
+    #[test]
+    fn opendir_closes_file_descriptor_when_dropped() {
+        let system = VirtualSystem::new();
+        let fds_before = system.current_process().fds().len();
+        let dir = system.opendir(c"/tmp").unwrap();
+        assert_eq!(system.current_process().fds().len(), fds_before + 1);
+        drop(dir);
+        assert_eq!(system.current_process().fds().len(), fds_before);
+    }
 
     #[test]
     fn open_directory_for_writing() {
